@@ -25,7 +25,9 @@ def gen_script(rng, chk):
     seed = rng.randrange(10 ** 6)
     chk.count(f"alpha:{'sample_avg' if alpha == -1 else 'const'}"); chk.count(f"eps:{'0' if eps == 0 else '1' if eps == 1 else 'mid'}")
     ops = []
-    ref = rng.choice([1.0, 10.0, 0.3, 1e-3, 7.5])
+    # losses may be negative (a log-likelihood, a user-defined score): the rule is the same formula there, and the reference moves on every decrease
+    ref = rng.choice([1.0, 10.0, 0.3, 1e-3, 7.5, -0.5, -3.0, -1e-3])
+    chk.count("reward:reference_sign=" + ("neg" if ref < 0 else "pos"))
     for _ in range(rng.randint(1, 40)):
         k = rng.choice(["P", "P", "L", "L", "R", "PLR"])
         if k in ("P", "PLR"):
@@ -42,7 +44,7 @@ def gen_script(rng, chk):
                 chk.count("reward:degenerate_reference")
                 continue
             new = rng.choice([ref, ref * rng.random(), ref * (1 + rng.random()), ref / 2, float(np.nextafter(ref, 0)), 0.0])
-            ops.append(["R", ref, new]); ref = min(ref, new) if new > 0 else ref
+            ops.append(["R", ref, new]); ref = min(ref, new) if new != 0 else ref
         if k in ("L", "PLR"):
             r = rng.choice([0.0, 1.0, 0.5, rng.random(), rng.random(), 0.25, -0.5])
             ops.append(["L", rng.randrange(n), r])
@@ -109,7 +111,12 @@ def oracle(n, alpha, eps, trace) -> list[str]:
             _, cur, new, r, ref = t
             if new < cur:
                 if cur == 0 or abs(cur) == float("inf") or abs(new) == float("inf"):
-                    continue      # improvement over a reference at which the relative improvement is undefined: outside the rule's domain
+                    # improvement over a reference at which the relative improvement is undefined: the VALUE of the reward is outside the rule's domain;
+                    # but the best loss decreased, so - unless the call raised - the reference is the new best afterwards (a reference stuck at the
+                    # initial +inf would make every later reward meaningless)
+                    if not isinstance(r, str) and ref != new:
+                        errs.append(f"the best loss decreased {cur!r}->{new!r} (reward {r!r}) but the reference best stayed at {ref!r}")
+                    continue
                 if isinstance(r, str) or not close(r, (Fraction(cur) - Fraction(new)) / Fraction(cur)):
                     errs.append(f"reward for {cur!r}->{new!r} is {r!r}, not (prev-new)/prev")
                 if ref != new:
